@@ -347,7 +347,7 @@ func (r *Run) nativeRange(x nativeV) iter {
 	if x.rv.Kind() == reflect.Map {
 		keys := x.rv.MapKeys()
 		sort.Slice(keys, func(i, j int) bool { return fmt.Sprint(keys[i]) < fmt.Sprint(keys[j]) })
-		if r.ExploreMapOrder && len(keys) > 1 {
+		if r.ExploreMapOrder && len(keys) > 1 && r.permuteHere() {
 			perm := make([]reflect.Value, 0, len(keys))
 			rest := append([]reflect.Value(nil), keys...)
 			for len(rest) > 1 {
